@@ -16,11 +16,17 @@
 
   NOT modelled: lexing (`#` comments, strip, split, `str(weight)`, `Fraction()/Decimal()/int()` of a multiplier,
   `str.isdigit` / `int()` of a header value — a value comes with these classifications, the regular expression and
-  `str.lower` behind `_name_to_initials` — a candidate comes with its initials), BLT mode (`ballots=blt` or
-  `method=blt`, see VotelibModel.Blt) and the ordered ballot format (`order=`): these answer `Err.other "unmodelled"`.
-  Import-free.
+  `str.lower` behind `_name_to_initials` — a candidate comes with its initials) and the ordered ballot format (`order=`),
+  which answers `Err.other "unmodelled"`.
+
+  BLT mode IS modelled: the writer without a system (`method=blt`, `ballots=blt`, then `blt.dump_lines`), the reader
+  after a `ballots=blt` line (`blt.load_lines` on the rest of the file, VotelibModel.Blt; seats, candidates and — when the
+  header has none — the title of the BLT content replace those of the header, L244-262) and `method=blt`
+  (UnknownEvaluator).
+  Import-free (core Lean only).
 -/
 import VotelibModel.Core
+import VotelibModel.Blt
 namespace VL.StvFile
 open VL
 
@@ -64,8 +70,8 @@ inductive VLine where
 deriving DecidableEq, Repr, Inhabited
 
 /-- weight handed to the writer: its value and whether the multiplier written for it (`f'{n_votes}X'`, a Decimal in
-    plain notation `format(n_votes, 'f')`) is one `_parse_multiplier` accepts (everything but negative ints and
-    non-finite Decimals) -/
+    plain notation `format(n_votes, 'f')`) is one `_parse_multiplier` accepts (everything but non-finite Decimals, once
+    negative weights are refused) -/
 structure Weight where
   val : Rat
   spellable : Bool
@@ -176,16 +182,25 @@ def dumpSys : Sys → Except Err (List (String × SVal))
   | .other => pure []
 
 /-- `dump_lines` with a system (L72-76); `namesOK`: every candidate name is non-empty and can be carried
-    (`_header_text(name, allow_empty=False)`) -/
+    (`_header_text(name, allow_empty=False)`); a negative ballot weight is refused (`_dump_ballots` L173-174, since
+    7f49a3e).  `dump_lines` is a generator: whichever refusal comes first, `dumps` raises NotSupportedInSTV and returns
+    no text. -/
 def dumpStv (sys : Sys) (seatsArg : Option Nat) (namesOK : Bool) (d : Doc Weight) :
     Except Err (List HLine × List VLine) := do
   let sl ← dumpSys sys
   let arg := (match seatsArg with | some n => [("seats", SVal.num n)] | none => [])
   if !namesOK then throw notSupported
+  if d.ballots.any (fun b => decide (b.2.val < 0)) then throw notSupported
   let nicks := candidateNicks (d.cands.map (·.2.2))
   let hdr := (sl ++ arg).map (fun p => HLine.other p.1 p.2)
     ++ (d.cands.zip nicks).map (fun p => HLine.cand p.1.2.1 p.2 p.1.1) ++ [HLine.ballotsN d.ballots.length]
   pure (hdr, d.ballots.map (voteLine nicks) ++ [VLine.endLine])
+
+/-- `dump_lines` without a system (L77-82): `method=blt`, `ballots=blt`, then the BLT writer WITHOUT an election name;
+    its refusals (NotSupportedInBLT: negative weight, unlisted candidate) come through -/
+def dumpStvBlt (d : Blt.Doc Blt.Weight) : Except Err (List HLine × List Blt.Line) := do
+  let ls ← Blt.dumpBlt { d with title := none }
+  pure ([HLine.other "method" (SVal.word "blt"), HLine.ballotsBlt], ls)
 
 /-! ### reader -/
 
@@ -224,6 +239,7 @@ def compsAdd (c : Comps) (k : String) (v : SVal) : Except Err Comps :=
 inductive Quota where
   | name (s : String)          -- votelib.component.quota.get(name)
   | const (n : Nat)            -- quota.constant(int)
+  | unknown                    -- `method=blt`: UnknownEvaluator, which has no quota (a quota line is checked and dropped)
 deriving DecidableEq, Repr, Inhabited
 
 /-- what the system `_create_system` builds amounts to -/
@@ -248,8 +264,7 @@ def sysMethod (c : Comps) : Except Err String :=
   | none => throw Err.parseError                                   -- L420-421 `not method`
   | some v =>
       if v.text = "" then throw Err.parseError
-      else if v.text = "blt" then throw unmodelled
-      else if v.text = "BC" ∨ v.text = "GPCA2000" then pure v.text
+      else if v.text = "BC" ∨ v.text = "GPCA2000" ∨ v.text = "blt" then pure v.text
       else throw Err.notImplemented
 
 /-- L416-417 and L424-433: which quota setting is used, and whether `mandatory` was among them; with two settings
@@ -267,13 +282,14 @@ def sysQuotaSel (method : String) (c : Comps) : Except Err (Option SVal × Bool)
   | some (a, none) => pure (some a, false)
   | none => pure (none, false)
 
-/-- L434-444 -/
-def sysQuota : Option SVal → Except Err Quota
-  | none => throw Err.parseError                                   -- 'quota setting not found'
+/-- L434-444; with `method=blt` a missing quota is fine and a given one is only checked (L463-475) -/
+def sysQuota (blt : Bool) : Option SVal → Except Err Quota
+  | none => if blt then pure Quota.unknown else throw Err.parseError          -- 'quota setting not found'
   | some v =>
       match v.digits with
-      | some n => pure (Quota.const n)
-      | none => if knownQuotas.contains v.text then pure (Quota.name v.text) else throw Err.parseError
+      | some n => pure (if blt then Quota.unknown else Quota.const n)
+      | none => if knownQuotas.contains v.text then pure (if blt then Quota.unknown else Quota.name v.text)
+                else throw Err.parseError
 
 /-- L453-454, `_add_tiebreaker` (a value classified as decimal is neither empty nor 'non': the tests commute) -/
 def sysRandom (c : Comps) : Except Err (Option (Option Nat)) :=
@@ -299,26 +315,28 @@ def sysSeats (c : Comps) : Except Err (Option Int) :=
 def createSystem (c : Comps) : Except Err Summary := do
   let method ← sysMethod c
   let (quota1, mandatory) ← sysQuotaSel method c
-  let quota ← sysQuota quota1
+  let blt := decide (method = "blt")
+  let quota ← sysQuota blt quota1
   let random ← sysRandom c
   let seats ← sysSeats c
-  pure { title := sysTitle c, seats := seats, quota := quota, mandatory := mandatory, random := random }
+  pure { title := sysTitle c, seats := seats, quota := quota, mandatory := !blt && mandatory, random := random }
 
-/-- `_load_system` (L252-290): candidates, nick table, system settings, ballot count -/
+/-- `_load_system` (L252-290): candidates, nick table, system settings, ballot count (`none`: `ballots=blt`) -/
 def loadHeader : List HLine → List (String × Bool) → List (String × Nat) → Comps →
-    Except Err (List (String × Bool) × List (String × Nat) × Summary × Nat)
+    Except Err (List (String × Bool) × List (String × Nat) × Summary × Option Nat)
   | [], _, _, _ => throw Err.parseError                                     -- L290: end of file before ballot data
   | .blank :: rest, cs, nk, sc => loadHeader rest cs nk sc
   | .invalid :: _, _, _, _ => throw Err.parseError                          -- L302
   | .cand w nick name :: rest, cs, nk, sc => loadHeader rest (cs ++ [(name, w)]) (nickSet nk nick cs.length) sc
   | .candBad :: _, _, _, _ => throw Err.parseError                       -- candidate line without a name
-  | .ballotsN n :: _, cs, nk, sc => do let sys ← createSystem sc; pure (cs, nk, sys, n)      -- L271-274
-  | .ballotsBlt :: _, _, _, _ => throw unmodelled
+  | .ballotsN n :: _, cs, nk, sc => do let sys ← createSystem sc; pure (cs, nk, sys, some n)      -- L271-274
+  | .ballotsBlt :: _, cs, nk, sc => do let sys ← createSystem sc; pure (cs, nk, sys, none)
   | .ballotsBad :: _, _, _, sc => do let _ ← createSystem sc; throw Err.parseError   -- L272-273: the system is built first
   | .order _ :: _, _, _, _ => throw unmodelled
   | .other k v :: rest, cs, nk, sc => do let sc' ← compsAdd sc k v; loadHeader rest cs nk sc'
 
-/-- `votes[vote] += mult` on a `defaultdict(int)` -/
+/-- `votes[vote] = add_weights(votes[vote], mult)` on a `defaultdict(int)` (io/core.py `add_weights`, since 134a849):
+    the first multiplier as it is, every further one added exactly (Decimal through Fraction) — here: Rat -/
 def addVote : List (List Nat × Rat) → List Nat → Rat → List (List Nat × Rat)
   | [], b, w => [(b, 0 + w)]
   | (b', w') :: t, b, w => if b' = b then (b', w' + w) :: t else (b', w') :: addVote t b w
@@ -346,17 +364,36 @@ def loadVotes (nk : List (String × Nat)) (n : Nat) : List VLine → Nat → Lis
           let b ← lookupNicks nk (s :: more)
           loadVotes nk n rest (i + 1) (addVote acc b 1)
 
-/-- `load_lines` (L225-249) on a text split at its first `ballots=` line, own (unordered) format -/
-def loadStv (hdr : List HLine) (votes : List VLine) : Except Err (Doc Rat × List (String × Bool) × Summary) := do
-  let (cs, nk, sys, n) ← loadHeader hdr [] [] {}
-  let bs ← loadVotes nk n votes 0 []
-  pure ({ cands := cs.map (fun c => (c.1, c.2, "")), ballots := bs }, cs, sys)
+/-- BLT mode of `load_lines` (L244-262) once the BLT content is read: the title of the content is used when the header
+    has none and the content's is not empty, its seat count replaces a `seats=` line, and — since f06b201 — its
+    candidates, which the ballots refer to, replace the header's whenever there are any -/
+def bltMode (cs : List (String × Bool)) (sys : Summary) (d : Blt.Doc Rat) : Doc Rat × List (String × Bool) × Summary :=
+  let cands := if d.cands.isEmpty then cs else d.cands
+  ({ cands := cands.map (fun c => (c.1, c.2, "")), ballots := d.ballots }, cands,
+   { sys with title := (match sys.title with
+                        | some t => some t
+                        | none => (match d.title with | some t => if t = "" then none else some t | none => none)),
+              seats := some (d.nSeats : Int) })
+
+/-- `load_lines` (L237-266) on a text split at its first `ballots=` line: the rest of the file as the own (unordered)
+    ballot format sees it (`votes`) and as the BLT reader sees it (`blt`); only one of the two views is looked at -/
+def loadStv (hdr : List HLine) (votes : List VLine) (blt : List Blt.Line) :
+    Except Err (Doc Rat × List (String × Bool) × Summary) := do
+  let (cs, nk, sys, n?) ← loadHeader hdr [] [] {}
+  match n? with
+  | some n => do
+      let bs ← loadVotes nk n votes 0 []
+      pure ({ cands := cs.map (fun c => (c.1, c.2, "")), ballots := bs }, cs, sys)
+  | none =>
+      match Blt.loadBlt blt with
+      | .error e => throw e                  -- BLTParseError is re-raised as STVParseError (both `Err.parseError`)
+      | .ok d => pure (bltMode cs sys d)
 
 /-! ### well-formedness for the round trip -/
 
 def wfStv (d : Doc Weight) : Bool :=
   let nicks := candidateNicks (d.cands.map (·.2.2))
-  d.ballots.all (fun b => b.1.all (· < d.cands.length)
+  d.ballots.all (fun b => b.1.all (· < d.cands.length) && decide (0 ≤ b.2.val)
         && (b.2.spellable || !needMult (b.1.map (nickAt nicks)) b.2))     -- the multiplier, where one is written, is readable
   && decide (d.ballots.map (·.1)).Nodup
 
